@@ -422,11 +422,16 @@ def _mala_callsite(chk, repo, k: Kernel, problems: List[str]):
         raise AnchorError(f"{k.ci.qual}.step: expected one call of _accept_or_reject")
     c = calls[0]
     n = ex.cfg.stmt_node_containing(c)
-    args = [ex.expand(a, n) for a in c.args]
+    # positional and keyword arguments bound to _accept_or_reject's parameter list
+    ps = func_params(repo.method(k.ci, "_accept_or_reject")[1])[1:]
+    bound = dict(zip(ps, c.args))
+    bound.update({kw.arg: kw.value for kw in c.keywords if kw.arg})
+    raw_args = [bound[p_] for p_ in ps[:3] if p_ in bound]
+    args = [ex.expand(a, n) for a in raw_args]
     if len(args) != 3:
         problems.append("_accept_or_reject is not called with (x*, logd*, grad*)")
         return
-    x = unparse(c.args[0])
+    x = unparse(raw_args[0])
     a1, a2 = _is_logd_call(args[1]), _is_gradient_call(args[2])
     xe = unparse(args[0])
     if a1 is None or unparse(ex.expand(a1, n)) != xe:
@@ -448,8 +453,13 @@ def _r2_cwmh(chk, repo, k: Kernel, acc, asg):
         raise AnchorError(f"{k.label}: expected one component loop")
     loop = loops[0]
     j = loop.target.id
-    if unparse(loop.iter) != "range(self.dim)":
-        problems.append(f"component loop iterates {unparse(loop.iter)}, not range(self.dim)")
+    try:
+        _ex = Expander(fn)
+        it_txt = unparse(_ex.expand(loop.iter, _ex.cfg.node_of(loop)))
+    except Exception:
+        it_txt = unparse(loop.iter)
+    if it_txt != "range(self.dim)":
+        problems.append(f"component loop iterates {it_txt}, not range(self.dim)")
     trial = path_of(k.P) if k.P is not None else None          # x_star
     cur_l = path_of(k.cur) if k.cur is not None else None      # target_eval_t
     # trial[j] = SRC[j] precedes the evaluation
@@ -703,29 +713,34 @@ def _loglikelihood_is_likelihood(repo, k: Kernel) -> List[str]:
         rets = [n for n in ast.walk(r[1]) if isinstance(n, ast.Return)]
         body = rets[0].value if len(rets) == 1 else None
     else:
-        # legacy: lambda stored by the target setter
+        # legacy: a callable stored by the target setter (lambda or nested def): compared by its body with the parameter renamed
+        from ..pathtable import callable_text
+        from ..pattern import norm as pn
+        texts = set()
         for c in k.ci.mro():
             for kind, name, fn in c.all_functions():
+                local_defs = {d.name: d for d in ast.walk(fn) if isinstance(d, ast.FunctionDef) and d is not fn}
                 for n in ast.walk(fn):
-                    if isinstance(n, ast.Assign) and path_of(n.targets[0]) == "self._loglikelihood" and isinstance(n.value, ast.Lambda):
-                        b = n.value.body
-                        if body is not None and unparse(b) != unparse(body):
-                            out.append("two different definitions of _loglikelihood")
-                        body = b
-    if body is None or unparse(body) != "self.likelihood.logd(x)":
+                    if isinstance(n, ast.Assign) and path_of(n.targets[0]) == "self._loglikelihood":
+                        v = n.value
+                        if isinstance(v, ast.Name) and v.id in local_defs:
+                            v = local_defs[v.id]
+                        texts.add(callable_text(v, pn))
+        if len(texts) > 1:
+            out.append("two different definitions of _loglikelihood")
+        if texts != {"lambda _a0:self.likelihood.logd(_a0)"}:
+            out.append(f"_loglikelihood is `{sorted(texts) or 'missing'}`, not x -> self.likelihood.logd(x)")
+        body = True
+    if body is None or (body is not True and unparse(body) != "self.likelihood.logd(x)"):
         out.append(f"_loglikelihood is `{unparse(body) if body is not None else 'missing'}`, not self.likelihood.logd(x)")
-    p = k.ci.lookup_prop("likelihood")
-    if p is None or p.getter is None:
-        out.append("no likelihood property")
-    else:
-        rets = [unparse(n.value) for n in ast.walk(p.getter) if isinstance(n, ast.Return)]
-        if not all(rv in ("self.target.likelihood", "self.target[0]") for rv in rets):
-            out.append(f"likelihood property returns {rets}")
-    pp = k.ci.lookup_prop("prior")
-    if pp is None or pp.getter is None:
-        out.append("no prior property")
-    else:
-        rets = [unparse(n.value) for n in ast.walk(pp.getter) if isinstance(n, ast.Return)]
-        if not all(rv in ("self.target.prior", "self.target[1]") for rv in rets):
-            out.append(f"prior property returns {rets}")
+    for pname, allowed in (("likelihood", ("self.target.likelihood", "self.target[0]")), ("prior", ("self.target.prior", "self.target[1]"))):
+        p = k.ci.lookup_prop(pname)
+        if p is None or p.getter is None:
+            out.append(f"no {pname} property")
+        else:
+            # an implicit / explicit `return None` for an unsupported target is not a source of the quantity
+            rets = [unparse(n.value) for n in ast.walk(p.getter) if isinstance(n, ast.Return) and n.value is not None
+                    and not (isinstance(n.value, ast.Constant) and n.value.value is None)]
+            if not rets or not all(rv in allowed for rv in rets):
+                out.append(f"{pname} property returns {rets}")
     return out
